@@ -27,13 +27,15 @@ NOTE = ("PROVED for all programs / schedules / thread and accessor counts, threa
         "(slot published with a version below every tick taken after the unlink of what the reader holds; every "
         "running scan has a minimum below that tick or still has the slot ahead inside its bound; no finished scan "
         "allows the reclaim), c09_open_region_published (nesting + move), c09_unlocked_slot_idle, c09_slots_exclusive, "
-        "memory-order / constant obligations.  PARTIAL: c09_released_never_blocks_partial needs 'no Accessor was "
-        "released while locked so far'; the unrestricted statement is refuted (c09_release_while_locked_refuted, "
-        "replayed on the real code: KNOWN_FINDINGS release-while-locked-holds-mark).  PARTIAL (store-buffer half of the "
-        "quantifier): c09_tso_entry_fence_skeleton proves, on an explicit store-buffer machine, for ALL schedules incl. "
+        "c09_released_never_blocks (a slot whose accessor is unlocked, released - also while locked, since fix "
+        "053c9bd - or never bound has lock_times = 0 and is idle), c09_reused_slot_clean, c09_lock_times_is_depth, "
+        "memory-order / constant obligations.  PARTIAL (store-buffer half of the "
+        "quantifier): c09_litmus_all_executions (generic machine WM/TSO.v, lifted by TSOProofs.outcomes_sound) and "
+        "c09_tso_entry_fence_skeleton (EP/EPTsoModel.v, also carries the version values) prove, on an explicit store-buffer machine, for ALL schedules incl. "
         "buffer flushes, that reader(load version; store slot; fence; load cell) vs writer(store cell; RMW tick; load "
         "slot) never both miss each other when the regenerated site table has the seq_cst entry fence after the slot "
-        "store, and c09_tso_without_fence_refuted exhibits the miss without it; this is the ONE-slot, one-reader "
+        "store and the x86 tick is a seq_cst RMW; c09_tso_without_fence_refuted / c09_litmus_no_entry_fence_refuted / "
+        "c09_litmus_tick_relaxed_refuted exhibit the miss otherwise; this is the ONE-slot, one-reader "
         "skeleton on the x86 tick branch only - its composition with the full algorithm and the non-x86 branch (relaxed "
         "RMW + seq_cst fence) are covered only by the order obligations on the site table, not mechanised.  The dsched "
         "scheduler produces sequentially consistent executions of the real code only.  IdAllocator::allocate/deallocate "
@@ -61,7 +63,7 @@ def gen_small(rng, tl):
         reader_shapes = [["C0", "L0", "R0", "D0", "U0"], ["C0", "L0", "R0", "D0", "U0", "X0"],
                          ["C0", "L0", "L0", "U0", "R0", "D0", "U0"], ["C0", "L0", "R0", "G0:1"],
                          ["C0", "X0", "C0", "L0", "R0", "D0"], ["C0", "L0", "R0", "U0", "D0"],
-                         ["L0", "C0", "L0", "R0", "D0", "U0"]]
+                         ["L0", "C0", "L0", "R0", "D0", "U0"], ["C0", "L0", "R0", "X0", "C0", "L0", "R0", "D0"]]
     writer_shapes = [["K", "Z"], ["K", "Z", "Z"], ["K", "K", "Z"], ["Z", "K", "Z"], ["K"], ["K", "Z", "K", "Z"]]
     rs = list(rng.choice(reader_shapes))
     threads.append(rs)
@@ -119,7 +121,7 @@ def gen_big(rng, tl):
                 if h not in bound:
                     ops.append("C%d" % h); bound.add(h); depth[h] = 0
                     continue
-                c = rng.below(14)
+                c = rng.below(15)
                 if d == 0:
                     if c < 9:
                         ops.append("L%d" % h); depth[h] = 1
@@ -138,6 +140,8 @@ def gen_big(rng, tl):
                         ops.append("D%d" % h)
                     elif c < 13:
                         ops.append("U%d" % h); depth[h] = d - 1
+                    elif c == 14:
+                        ops.append("X%d" % h); bound.discard(h); depth[h] = 0   # release while locked
                     else:
                         to = rng.below(nt)
                         ops.append("G%d:%d" % (h, to))
@@ -173,10 +177,13 @@ TARGETED = [
     ("acc1024", [0, 1], "C0,B3,L0,R0,Z,Z,Z,D0,U0|Z,K,Z,C1,L1,R1,D1,U1,Z|Z,K,Z"),
 ]
 
-# release() of an Accessor whose region is still open (see KNOWN_FINDINGS / Properties_C09 c09_release_while_locked_refuted)
+# release() of an Accessor whose region is still open (was the finding release-while-locked-holds-mark, fixed in 053c9bd:
+# the slot must become idle and a reused slot must start with lock_times = 0)
 RWL = [
     ("acc", [0], "C0,L0,X0|K,Z"),
     ("acc", [0, 0], "C0,L0,R0,X0,C1,L1,U1|K,Z,Z"),
+    ("acc", [0, 0], "C0,L0,L0,X0,C1,L1,R1,D1,U1,Z|K,Z,K,Z"),
+    ("acc", [0, 1], "C0,L0,R0,X0,Z|C1,L1,R1,D1,U1,X1|K,Z,Z"),
 ]
 
 
@@ -251,14 +258,13 @@ def main(argv):
             if any(o.endswith("uaf=1") for o in outs):
                 chk.violate("model-uaf", "the model admits a schedule in which a reader uses a reclaimed object: %s"
                             % l[:300], {"level": "model", "program": [x for x in progs if x[0] == pid][0][3]})
-    MON = ["uaf", "holdback", "stale", "tick", "rwlstale"]
+    MON = ["uaf", "holdback", "stale", "tick"]
     WHAT = {"uaf": "a reader inside its region dereferenced an object that had been reclaimed",
             "holdback": "low_water_mark() reached the tick of an unlink that happened after a still open region was entered",
             "stale": "low_water_mark() is held back although no region that overlaps the call justifies it "
                      "(an unlocked/released accessor holds the mark back)",
-            "tick": "tick() returned a duplicate / out of range value",
-            "rwlstale": "an Accessor released while its region was open keeps holding the low water mark back for ever"}
-    SIG = {"rwlstale": "release-while-locked-holds-mark"}
+            "tick": "tick() returned a duplicate / out of range value"}
+    SIG = {}
     validated = 0
     distinct = set()
     for cid, l in impl_out.items():
